@@ -14,6 +14,8 @@ def engine_correspondence(rep, binp, seed, n):
     hyp = [l for l in out.split('\n') if l.startswith('HYP ')]
     m = re.search(r'TRACES (\d+) (\d+)', out)
     rep.cov['traces_validated_against_impl'] = int(m.group(1)) if m else 0
+    ms = re.search(r'SCRIBBLES (\d+)', out)
+    rep.cov['layouts_written_under_a_ComputeSize_query_in_those_traces'] = int(ms.group(1)) if ms else 0
     for h in hyp[:5]:
         rep.add_broken('interface-hypothesis', h.split()[2] if len(h.split()) > 2 else 'H', h)
     try:
